@@ -380,9 +380,10 @@ def r5(ctx):
 
     def plates_comp(g):
         g = B.resolve(g, env)
-        if isinstance(g, (ast.GeneratorExp, ast.ListComp)) and len(g.generators) == 1 and isinstance(g.generators[0].target, ast.Name) \
-                and isinstance(g.generators[0].iter, ast.Attribute) and g.generators[0].iter.attr == "plates":
-            return g.generators[0].target.id, g.generators[0].ifs, g.elt
+        if isinstance(g, (ast.GeneratorExp, ast.ListComp)) and len(g.generators) == 1 and isinstance(g.generators[0].target, ast.Name):
+            it_ = B.resolve(g.generators[0].iter, env)          # the plate list named first (`plates = screen.plates`)
+            if isinstance(it_, ast.Attribute) and it_.attr == "plates":
+                return g.generators[0].target.id, g.generators[0].ifs, g.elt
         return None
 
     def form(e, depth=0):
